@@ -640,7 +640,6 @@ func Run(c *core.Ctx) {
 	}
 	draws := c.Pick(2, 10) // size draws per enumerated (config, comp, outcome, k)
 	maxK := 8
-	var id atomic.Int64
 	var nCases, nServer, nNontrivial, nStreamFail, nStreamPartial, nStreamOK, nStreamOKSame, nBufFail, nBufOK atomic.Int64
 	var maxBody atomic.Int64
 	kSeen := make([]atomic.Int64, maxK+1)
@@ -650,6 +649,7 @@ func Run(c *core.Ctx) {
 		v  verdict
 	}
 	var vios []vio
+	samples := map[int]any{}
 
 	work := make(chan int)
 	var wg sync.WaitGroup
@@ -668,7 +668,7 @@ func Run(c *core.Ctx) {
 								n++
 								prof := profiles[(n+ci)%len(profiles)]
 								cs := Case{Status: cf.status, CT: cf.ct, EH: cf.eh, Stream: cf.stream, Comp: comp, Outcome: out,
-									Sizes: sizesFor(rnd, prof, k), Via: "recorder", ID: int(id.Add(1))}
+									Sizes: sizesFor(rnd, prof, k), Via: "recorder", ID: ci*100000 + n}
 								// a slice of every configuration also goes through a real server:
 								// k=0 and one k>=1 per (component, outcome)
 								if d == 0 && (k == 0 || k == 1+(ci+n)%maxK) {
@@ -712,11 +712,10 @@ func Run(c *core.Ctx) {
 									vios = append(vios, vio{cs, v})
 									vioMu.Unlock()
 								}
-								if ci == 37 && comp == "nested" && k == 3 && d == 0 {
-									c.Sample(map[string]any{"case": cs, "verdict": "held=" + strconv.FormatBool(v.Category == ""), "partial_output_seen": v.Partial})
-								}
-								if ci == 36 && comp == "genstyle" && out == "err" && k == 2 && d == 0 {
-									c.Sample(map[string]any{"case": cs, "verdict": "held=" + strconv.FormatBool(v.Category == ""), "partial_output_seen": v.Partial})
+								if d == 0 && ((ci == 37 && comp == "nested" && k == 3) || (ci == 36 && comp == "genstyle" && out == "err" && k == 2)) {
+									vioMu.Lock()
+									samples[cs.ID] = map[string]any{"case": cs, "verdict": "held=" + strconv.FormatBool(v.Category == ""), "partial_output_seen": v.Partial}
+									vioMu.Unlock()
 								}
 							}
 						}
@@ -730,6 +729,14 @@ func Run(c *core.Ctx) {
 	}
 	close(work)
 	wg.Wait()
+	var sids []int
+	for id := range samples {
+		sids = append(sids, id)
+	}
+	sort.Ints(sids)
+	for _, id := range sids {
+		c.Sample(samples[id])
+	}
 
 	// ---- real generated components (templ generate + go build), one driver process
 	var nGen, nGenNontrivial, nGenStreamPartial int
@@ -761,7 +768,7 @@ func Run(c *core.Ctx) {
 								prof = "tiny"
 							}
 							cs := Case{Status: cf.status, CT: cf.ct, EH: cf.eh, Stream: cf.stream, Comp: comp, Outcome: out,
-								Sizes: sizesFor(rnd, prof, k), Via: "recorder", ID: int(id.Add(1))}
+								Sizes: sizesFor(rnd, prof, k), Via: "recorder", ID: 50000000 + n}
 							if n%9 == 0 {
 								cs.Via = "server"
 							}
